@@ -60,11 +60,32 @@ class SysHandler(object):
                 logger.error("error: %s [%s]" % (e, tb))
                 sys.exit(1)
 
+    def _cancel_restart(self):
+        arbiter = self.controller.arbiter
+        if getattr(arbiter, '_restarting', False):
+            # the arbiter is already stopping in order to be restarted by
+            # circusd: it only has to not come back
+            arbiter._restarting = False
+            return True
+        return False
+
     def quit(self):
+        if self._cancel_restart():
+            return
         # We need to transfer the control to the loop's thread
-        self.controller.loop.add_callback_from_signal(
-            self.controller.dispatch, (None, make_json("quit"))
-        )
+        self.controller.loop.add_callback_from_signal(self._quit)
+
+    def _quit(self):
+        if self._cancel_restart():
+            return
+        arbiter = self.controller.arbiter
+        if getattr(arbiter, '_exclusive_running_command', None) is not None:
+            # a command (or the periodic check) is running: the quit would
+            # be refused with a conflict and the signal lost. Try again
+            # as soon as it is over.
+            self.controller.loop.call_later(0.1, self._quit)
+            return
+        self.controller.dispatch((None, make_json("quit")))
 
     def reload(self):
         # We need to transfer the control to the loop's thread
